@@ -10,6 +10,8 @@ CONSTANTS
   AllowBad = TRUE
   AllowSplit = FALSE
   AllowRst = FALSE
+  AllowTClose = FALSE
+  AllowCRst = FALSE
   Timeout = 2
   MaxNow = 4
   DrainMode = "raw"
